@@ -158,6 +158,10 @@ def generate(rng, tier, index, focus):
         ops.append({"op": "apply", "seeds": [int(rng.integers(0, 2**31)) for _ in devices]})
     spec["ops"] = ops
     spec["focus"] = focus
+    # history beyond this container: in 40% of the runs a *decoy* scene with the same object names is placed and applied first
+    # in the same process, with every source / detector moved so that its relation to the devices is the opposite (disjoint
+    # <-> inside); anything the library remembers per object name across placements would then be stale for the real scene
+    spec["prior_scene_same_names"] = bool(rng.uniform() < 0.4)
     return spec
 
 
@@ -221,6 +225,29 @@ def execute(spec, focus):
     from fdtdx.objects.sources.source import Source
     from fdsim import scene as sc, driver as dr, devices as dvm
 
+    prior_fired = 0
+    if spec.get("prior_scene_same_names"):
+        import copy as _copy
+
+        decoy = _copy.deepcopy(spec)
+        shp = spec["shape"]
+        for o in decoy["sources"] + decoy["detectors"]:
+            hits = any(all(max(a0, b0) < min(a1, b1) for (a0, a1), (b0, b1) in zip(o["box"], dv["box"])) for dv in spec["devices"])
+            if hits:  # move it into the x = 0 column (probe cells only, outside every device)
+                size = [b[1] - b[0] for b in o["box"]]
+                o["box"] = [[0, min(size[0], 1)], [0, min(size[1], shp[1])], [0, min(size[2], shp[2])]] if o.get("kind") == "dipole" or size[0] == 1 else None
+            else:  # move a (one-cell) copy into the first device
+                dv = spec["devices"][0]["box"]
+                o["box"] = [[dv[a][0], dv[a][0] + 1] for a in range(3)] if o.get("kind") in ("dipole", "field") else None
+        decoy["sources"] = [o for o in decoy["sources"] if o["box"] is not None]
+        decoy["detectors"] = [o for o in decoy["detectors"] if o["box"] is not None]
+        try:
+            dsc = sc.build_scene(decoy, apply=False)
+            dparams = {dv["name"]: jnp.asarray(dvm.make_params(dv, 1), dtype=jnp.float64) for dv in decoy["devices"]}
+            fdtdx.apply_params(dsc.arrays, dsc.objects, dparams, dsc.key)
+            prior_fired = 1
+        except NotImplementedError:
+            pass
     try:
         scn = sc.build_scene(spec, apply=False)
     except NotImplementedError as e:
@@ -233,6 +260,8 @@ def execute(spec, focus):
     for dv in devs:
         outside[tuple(slice(a, b) for a, b in dv["box"])] = False
     viol, stats, resid = [], {"sim_steps": 0, "sim_time_fs": 0.0, "applies": 0}, {}
+    if prior_fired:
+        stats["fault_prior_scene_same_names"] = 1
     ncomp = m0["inv_permittivities"].shape[0]
 
     def perm_tuple(mspec):
